@@ -539,6 +539,10 @@ class Bits:
                 val = a.map2(b.map(BV.not_), BV.and_)
             elif kind in ("id", "id_mode"):
                 val = a
+                if kind == "id_mode" and a.is_top():
+                    # perm.mode() of a value BITS does not track (e.g. the payload of an enum): nothing is known about
+                    # the bits, but what is done to them afterwards can still be followed (keep mask of a fresh source)
+                    val = Val([BV(0, 0, (), M64, ("call", self.body.path, t.bb))])
                 if akey is not None:
                     fact = ("alias", ("alias", akey))
                 if kind == "id" and args[0].place is not None and args[0].place.is_local:
@@ -593,6 +597,9 @@ class Bits:
                             f = st.get(("and", tg.local))
                     if f is not None:
                         fact = ("cond", ("iszero", f[1], f[2], True))
+                    elif akey is not None:
+                        # x.is_empty(): no bit of x is set
+                        fact = ("cond", ("iszero", akey, M64, True))
             elif kind.startswith("mut_"):
                 tgt = self.target(args[0])
                 if tgt is not None:
